@@ -3,6 +3,7 @@
 package main
 
 import (
+	"bufio"
 	"context"
 	"encoding/hex"
 	"errors"
@@ -1728,6 +1729,7 @@ func init() {
 	// rawcmd <i> <arg hex>... : any RESP command; reply class
 	register("c.rawseq", rawSeq)
 	register("c.rawhold", rawHold)
+	register("c.rawframe", rawFrame)
 	register("c.rawdrop", rawDrop)
 	// c.rawint <m> <hex tok>...: a command whose reply is an integer
 	register("c.rawint", func(a []string) string {
@@ -1819,27 +1821,127 @@ func rawSeq(a []string) string {
 	return "ok"
 }
 
-// raw connections that stay open between operations (a subscriber that talks RESP by hand: command names in any case)
-var heldConns = map[string]net.Conn{}
+// readReply reads one RESP reply and returns a short canonical form of it ("" + error when the stream ends or is malformed)
+func readReply(rd *bufio.Reader) (string, error) {
+	line, err := rd.ReadString('\n')
+	if err != nil {
+		return "", err
+	}
+	line = strings.TrimRight(line, "\r\n")
+	if line == "" {
+		return "", fmt.Errorf("empty line")
+	}
+	printable := func(s string) string {
+		b := []byte(s)
+		for i, c := range b {
+			if c < 0x21 || c > 0x7e {
+				b[i] = '?'
+			}
+		}
+		return string(b)
+	}
+	switch line[0] {
+	case '+', ':':
+		return printable(line), nil
+	case '-':
+		return "-" + printable(strings.SplitN(line[1:], " ", 2)[0]), nil
+	case '$':
+		n := atoi(line[1:])
+		if n < 0 {
+			return "$nil", nil
+		}
+		buf := make([]byte, n+2)
+		if _, err := io.ReadFull(rd, buf); err != nil {
+			return "", err
+		}
+		return "$" + hx(buf[:n]), nil
+	case '*':
+		n := atoi(line[1:])
+		if n < 0 {
+			return "*nil", nil
+		}
+		out := []string{}
+		for i := 0; i < n; i++ {
+			e, err := readReply(rd)
+			if err != nil {
+				return "", err
+			}
+			out = append(out, e)
+		}
+		return "*[" + strings.Join(out, ",") + "]", nil
+	}
+	return "", fmt.Errorf("not RESP: %q", line)
+}
 
+// rawFrame: <m> <hex tok>...: the command and a PING written together on one fresh connection.  Exactly two replies must
+// come back, the second one PONG: a handler that answers twice (or not at all) shifts every later reply on the connection.
+// Reply: "first=<reply> second=<reply> extra=<bytes that followed>"
+func rawFrame(a []string) string {
+	m := cl.members[atoi(a[0])]
+	conn, err := net.DialTimeout("tcp", m.addr, 2*time.Second)
+	if err != nil {
+		return "neterr"
+	}
+	defer conn.Close()
+	var b []byte
+	b = append(b, fmt.Sprintf("*%d\r\n", len(a)-1)...)
+	for _, x := range a[1:] {
+		t := unhx(x)
+		b = append(b, fmt.Sprintf("$%d\r\n", len(t))...)
+		b = append(b, t...)
+		b = append(b, '\r', '\n')
+	}
+	b = append(b, "*1\r\n$4\r\nPING\r\n"...)
+	conn.SetWriteDeadline(time.Now().Add(2 * time.Second))
+	if _, err := conn.Write(b); err != nil {
+		return "neterr"
+	}
+	rd := bufio.NewReader(conn)
+	conn.SetReadDeadline(time.Now().Add(4 * time.Second))
+	first, err := readReply(rd)
+	if err != nil {
+		return "first=none:" + errClass(err)
+	}
+	second, err := readReply(rd)
+	if err != nil {
+		return "first=" + first + " second=none"
+	}
+	conn.SetReadDeadline(time.Now().Add(15 * time.Millisecond))
+	extra, _ := io.ReadAll(io.LimitReader(rd, 64))
+	if len(first) > 80 {
+		first = first[:80]
+	}
+	return "first=" + first + " second=" + second + " extra=" + strconv.Itoa(len(extra))
+}
+
+// raw connections that stay open between operations (a subscriber that talks RESP by hand: command names in any case)
+type heldConn struct {
+	conn net.Conn
+	rd   *bufio.Reader
+}
+
+var heldConns = map[string]*heldConn{}
+
+// rawHold <name> <m> <hex tok>... [| ...]: commands written by hand on a connection that stays open.  Returns after the
+// member has processed all of them: a PING is sent behind them and replies are read up to its answer.
 func rawHold(a []string) string {
 	name := a[0]
-	conn := heldConns[name]
-	if conn == nil {
+	hc := heldConns[name]
+	if hc == nil {
 		m := cl.members[atoi(a[1])]
 		c, err := net.DialTimeout("tcp", m.addr, 2*time.Second)
 		if err != nil {
 			return "neterr"
 		}
-		heldConns[name] = c
-		conn = c
+		hc = &heldConn{conn: c, rd: bufio.NewReader(c)}
+		heldConns[name] = hc
 	}
+	var b []byte
 	var cmdv [][]byte
 	flush := func() {
 		if len(cmdv) == 0 {
 			return
 		}
-		var b []byte
 		b = append(b, fmt.Sprintf("*%d\r\n", len(cmdv))...)
 		for _, t := range cmdv {
 			b = append(b, fmt.Sprintf("$%d\r\n", len(t))...)
@@ -1847,11 +1949,6 @@ func rawHold(a []string) string {
 			b = append(b, '\r', '\n')
 		}
 		cmdv = nil
-		conn.SetWriteDeadline(time.Now().Add(time.Second))
-		conn.Write(b)
-		buf := make([]byte, 4096)
-		conn.SetReadDeadline(time.Now().Add(80 * time.Millisecond))
-		conn.Read(buf)
 	}
 	for _, x := range a[2:] {
 		if x == "|" {
@@ -1861,14 +1958,29 @@ func rawHold(a []string) string {
 		cmdv = append(cmdv, unhx(x))
 	}
 	flush()
-	return "ok"
+	b = append(b, "*2\r\n$4\r\nPING\r\n$8\r\nverif-hc\r\n"...)
+	hc.conn.SetWriteDeadline(time.Now().Add(2 * time.Second))
+	if _, err := hc.conn.Write(b); err != nil {
+		return "neterr"
+	}
+	hc.conn.SetReadDeadline(time.Now().Add(5 * time.Second))
+	for i := 0; i < 10000; i++ {
+		r, err := readReply(hc.rd)
+		if err != nil {
+			return "noconfirm:" + errClass(err)
+		}
+		if strings.Contains(r, hx([]byte("verif-hc"))) || strings.Contains(r, "verif-hc") {
+			return "ok"
+		}
+	}
+	return "noconfirm"
 }
 
 func rawDrop(a []string) string {
 	if c := heldConns[a[0]]; c != nil {
-		c.Close()
+		c.conn.Close()
 		delete(heldConns, a[0])
-		time.Sleep(50 * time.Millisecond)
+		time.Sleep(300 * time.Millisecond)
 	}
 	return "ok"
 }
